@@ -495,3 +495,302 @@ Proof.
     + intros a [<-|[<-|[]]]; reflexivity.
     + cbn. lia.
 Qed.
+
+(* ================= 11. stalled clients hold up nobody ================= *)
+Lemma pc_eqb_eq a b : pc_eqb a b = true <-> a = b.
+Proof. destruct a, b; cbn; split; intros H; try reflexivity; discriminate H. Qed.
+
+Lemma filter_nil_iff {A} (f : A -> bool) l : filter f l = [] <-> forall x, In x l -> f x = false.
+Proof.
+  split.
+  - intros E x Hx. destruct (f x) eqn:F; [|reflexivity].
+    assert (In x (filter f l)) as I by (apply filter_In; auto). rewrite E in I. destruct I.
+  - intros H. destruct (filter f l) as [|y r] eqn:E; [reflexivity|].
+    assert (In y (filter f l)) as I by (rewrite E; left; reflexivity).
+    apply filter_In in I. destruct I as [I F]. rewrite (H _ I) in F. discriminate.
+Qed.
+
+Lemma stableb_spec s : stableb s = true <->
+  holder s = None /\ waiting s = [] /\
+  (forall c e, In (c, e) (pending s) -> cpc (cl s c) = PBusy) /\
+  (forall c, c < next_id s -> client_restless (cl s c) = false).
+Proof.
+  unfold stableb. split.
+  - intros H. destruct (holder s); [discriminate|]. destruct (waiting s); [|discriminate].
+    destruct (held_up s) eqn:HU; [|discriminate]. repeat split.
+    + intros c e I. unfold held_up in HU. rewrite filter_nil_iff in HU. specialize (HU _ I). cbn in HU.
+      apply negb_false_iff in HU. unfold stalledb in HU. apply pc_eqb_eq in HU. exact HU.
+    + intros c L. apply negb_true_iff in H.
+      destruct (client_restless (cl s c)) eqn:CR; [|reflexivity].
+      assert (existsb (fun c0 => client_restless (cl s c0)) (seq 0 (next_id s)) = true) as X.
+      { apply existsb_exists. exists c. split; [apply in_seq; lia | exact CR]. }
+      congruence.
+  - intros (Hn & W & P & C). rewrite Hn, W.
+    assert (held_up s = []) as HU.
+    { unfold held_up. apply filter_nil_iff. intros [c e] I. cbn. apply negb_false_iff. unfold stalledb.
+      apply pc_eqb_eq. exact (P _ _ I). }
+    rewrite HU. apply negb_true_iff. destruct (existsb _ _) eqn:X; [|reflexivity].
+    apply existsb_exists in X. destruct X as [c [I CR]]. apply in_seq in I. rewrite C in CR by lia. discriminate.
+Qed.
+
+(* When the handler is at rest, the only clients that lack an event of their snapshot are the ones
+   that are themselves stalled in a write (the delivery is still waiting for them) or have left.
+   Every other client - in particular every client sitting in its select - has received it. *)
+Theorem stable_all_delivered s : reachable false s -> stableb s = true ->
+  forall e snap c, In (e, snap) (log s) -> In c snap ->
+    (delivered s c e \/ gone s c \/ (cpc (cl s c) = PBusy /\ In (c, e) (pending s))) /\
+    (cpc (cl s c) = PLoop -> delivered s c e).
+Proof.
+  intros R St e snap c A B. apply stableb_spec in St. destruct St as (Hn & _ & P & _).
+  destruct (broadcast_reaches_connected s R e snap c A B) as [D|[D|[[todo [X _]]|D]]].
+  - split; [left; exact D | intros _; exact D].
+  - pose proof (P _ _ D) as Bz. split; [right; right; split; assumption | intros L; congruence].
+  - congruence.
+  - split; [right; left; exact D | intros L; unfold gone in D; congruence].
+Qed.
+
+(* the client whose state an action reads *)
+Theorem handler_steps_need_no_stalled_client s a s' : reachable false s ->
+  handler_step a = true -> step false s a = Some s' ->
+  forall c, touches a = Some c -> cpc (cl s c) <> PBusy.
+Proof.
+  intros R Hh H c T. apply Inv_reachable in R. destruct R as ((P & OK) & _).
+  destruct a; cbn in Hh; try discriminate Hh; cbn in T; try discriminate T; inversion T; subst; clear T;
+    destruct (OK c) as [EV DN]; inv_step H; try congruence.
+  match goal with X : _ && _ = true |- _ => apply andb_true_iff in X; destruct X as [_ D0]; apply DN in D0; congruence end.
+Qed.
+
+(* stableb is exactly "no goroutine of the handler can take a step": whatever remains to be done
+   is up to the environment (the stalled writes returning, the timer, new requests, new Send calls) *)
+Theorem stable_iff_handler_at_rest s : reachable false s ->
+  (stableb s = true <-> forall a, handler_step a = true -> step false s a = None).
+Proof.
+  intros R. pose proof (Inv_reachable s R) as ((P & OK) & (RG & F) & _).
+  assert (forall c, cpc (cl s c) <> PNone -> c < next_id s) as Known.
+  { intros c N. destruct (Nat.lt_ge_cases c (next_id s)) as [L|G]; [exact L|]. apply F in G. congruence. }
+  split.
+  - intros St a Hh. apply stableb_spec in St. destruct St as (Hn & W & Pd & C).
+    destruct a; cbn in Hh; try discriminate Hh; unfold step; rewrite P.
+    + rewrite Hn, W. reflexivity.
+    + rewrite Hn. reflexivity.
+    + rewrite Hn. reflexivity.
+    + destruct (mem_pair (c, e) (pending s)) eqn:M; [|reflexivity]. apply mem_pair_In in M.
+      destruct (OK c) as [EV _]. rewrite EV, (Pd _ _ M). reflexivity.
+    + destruct (mem_pair (c, e) (pending s)) eqn:M; [|reflexivity]. apply mem_pair_In in M. cbn.
+      destruct (OK c) as [_ DN]. destruct (done_closed (cl s c)) eqn:D; [|reflexivity].
+      assert (cpc (cl s c) = PGone) as G by (apply DN; reflexivity). rewrite (Pd _ _ M) in G. discriminate.
+    + destruct (cpc (cl s c)) eqn:E; try reflexivity.
+      assert (c < next_id s) as L by (apply Known; congruence).
+      specialize (C c L). unfold client_restless in C. rewrite E in C. rewrite C. reflexivity.
+    + rewrite Hn. destruct (cpc (cl s c)) eqn:E; try reflexivity.
+      assert (c < next_id s) as L by (apply Known; congruence).
+      specialize (C c L). unfold client_restless in C. rewrite E in C. discriminate.
+  - intros H. apply stableb_spec.
+    destruct (broadcaster_never_blocks false s R P) as (_ & BL & BH & _).
+    assert (holder s = None) as Hn.
+    { destruct (holder s) as [[e todo]|] eqn:Hh; [|reflexivity]. exfalso.
+      assert (exists a, holder_action s = Some a /\ handler_step a = true) as [a [Ha Hs]].
+      { unfold holder_action. rewrite Hh. destruct todo; eexists; split; reflexivity. }
+      destruct (BH a Ha) as [s' [X _]]. rewrite (H a Hs) in X. discriminate. }
+    split; [exact Hn|]. split; [|split].
+    + destruct (waiting s) as [|e w] eqn:W; [reflexivity|]. exfalso.
+      destruct (BL e Hn (or_introl eq_refl)) as [s' [X _]].
+      rewrite (H (SendLock e) eq_refl) in X. discriminate.
+    + intros c e I. pose proof (delivery_progress s c e R I) as D.
+      destruct (cpc (cl s c)) eqn:E; [destruct D | | reflexivity | |].
+      * destruct D as [s' [X _]]. rewrite (H (Deliver c e) eq_refl) in X. discriminate.
+      * destruct (D Hn) as [s' [X _]]. rewrite (H (Exit c) eq_refl) in X. discriminate.
+      * destruct D as [s' [X _]]. rewrite (H (Drop c e) eq_refl) in X. discriminate.
+    + intros c _. unfold client_restless. destruct (cpc (cl s c)) eqn:E; try reflexivity.
+      * destruct (cancelled (cl s c)) eqn:Cn; [|reflexivity]. exfalso.
+        pose proof (H (SeeDone c) eq_refl) as X. unfold step in X. rewrite P, E, Cn in X. discriminate.
+      * exfalso. pose proof (H (Exit c) eq_refl) as X. unfold step in X. rewrite P, Hn, E in X.
+        destruct (OK c) as [_ DN]. destruct (done_closed (cl s c)) eqn:D; [|discriminate X].
+        assert (cpc (cl s c) = PGone) as G by (apply DN; reflexivity). congruence.
+Qed.
+
+(* the states [audit] reports are the monitor's states at the OSettled observations *)
+Lemma audit_monitor : forall h s0 i0 i s, In (i, s) (audit s0 i0 h) ->
+  exists k, i = i0 + k /\ nth_error h k = Some OSettled /\ monitor s0 i0 (firstn (S k) h) = inl s.
+Proof.
+  induction h as [|o r IH]; intros s0 i0 i s H; cbn [audit] in H; [destruct H|].
+  destruct (expand s0 o) as [acts|] eqn:X; [|destruct H].
+  destruct (exec false s0 acts) as [s1|] eqn:Y; [|destruct H].
+  apply in_app_or in H. destruct H as [H|H].
+  - destruct o; try (destruct H; fail). destruct H as [H|[]]. inversion H; subst.
+    cbn in X. inversion X; subst acts. cbn in Y. inversion Y; subst s0.
+    exists 0. split; [lia|]. split; reflexivity.
+  - destruct (IH _ _ _ _ H) as [k (A & B & C)]. exists (S k). split; [lia|]. split; [exact B|].
+    change (firstn (S (S k)) (o :: r)) with (o :: firstn (S k) r). cbn [monitor]. rewrite X, Y. exact C.
+Qed.
+
+Theorem settled_points_judged h i s : In (i, s) (audit init 0 h) ->
+  nth_error h i = Some OSettled /\ monitor init 0 (firstn (S i) h) = inl s /\ reachable false s /\
+  (stableb s = true ->
+     forall e snap c, In (e, snap) (log s) -> In c snap ->
+       (delivered s c e \/ gone s c \/ (cpc (cl s c) = PBusy /\ In (c, e) (pending s))) /\
+       (cpc (cl s c) = PLoop -> delivered s c e)).
+Proof.
+  intros H. destruct (audit_monitor _ _ _ _ _ H) as [k (A & B & C)]. cbn in A. subst k.
+  split; [exact B|]. split; [exact C|]. pose proof (accepted_history_reachable _ _ C) as R.
+  split; [exact R|]. intros St. apply stable_all_delivered; assumption.
+Qed.
+
+(* ================= 12. the handler comes to rest by itself, stalled clients notwithstanding ================= *)
+Definition b2n (b : bool) : nat := if b then 1 else 0.
+
+Lemma count_upd (g : client -> bool) f c v : forall l, NoDup l -> In c l ->
+  length (filter (fun k => g (upd f c v k)) l) + b2n (g (f c)) = length (filter (fun k => g (f k)) l) + b2n (g v).
+Proof.
+  induction l as [|k r IH]; intros ND I; [destruct I|].
+  inversion ND as [|? ? NI ND']; subst. cbn [filter]. destruct I as [->|I].
+  - rewrite upd_same.
+    assert (filter (fun k => g (upd f c v k)) r = filter (fun k => g (f k)) r) as Eq.
+    { apply filter_ext_in. intros k Hk. rewrite upd_other; [reflexivity|]. intros ->. contradiction. }
+    rewrite Eq. destruct (g v), (g (f c)); cbn; lia.
+  - assert (k <> c) as NE by (intros ->; contradiction).
+    rewrite (upd_other f c v k NE). specialize (IH ND' I).
+    destruct (g (f k)); cbn [length]; lia.
+Qed.
+
+Lemma count_pc_upd p f n c v : c < n ->
+  count_pc p (upd f c v) n + b2n (pc_eqb (cpc (f c)) p) = count_pc p f n + b2n (pc_eqb (cpc v) p).
+Proof.
+  intros L. unfold count_pc. apply (count_upd (fun x => pc_eqb (cpc x) p)); [apply seq_NoDup | apply in_seq; lia].
+Qed.
+
+Lemma length_remove_nat_le n l : length (remove_nat n l) <= length l.
+Proof. unfold remove_nat. induction l as [|x r IH]; cbn; [lia|]. destruct (negb (x =? n)); cbn; lia. Qed.
+Lemma length_remove_nat_lt n l : In n l -> length (remove_nat n l) < length l.
+Proof.
+  unfold remove_nat. induction l as [|x r IH]; cbn; [tauto|]. intros [->|I].
+  - rewrite Nat.eqb_refl. cbn. pose proof (length_remove_nat_le n r) as Q. unfold remove_nat in Q. lia.
+  - specialize (IH I). destruct (negb (x =? n)); cbn; lia.
+Qed.
+
+(* every step of the handler's own goroutines uses up part of the bound *)
+Theorem handler_step_decreases s a s' : reachable false s ->
+  handler_step a = true -> step false s a = Some s' -> rest_bound s' < rest_bound s.
+Proof.
+  intros R Hh H. pose proof (Inv_reachable s R) as ((P & OK) & (RG & F) & _).
+  assert (forall c, cpc (cl s c) <> PNone -> c < next_id s) as Known.
+  { intros c N. destruct (Nat.lt_ge_cases c (next_id s)) as [L|G]; [exact L|]. apply F in G. congruence. }
+  unfold rest_bound, hold_work.
+  destruct a; cbn in Hh; try discriminate Hh; inv_step H; cbn [pending holder waiting registered cl next_id with_pending with_cl with_panic].
+  - (* SendLock *)
+    match goal with X : mem_nat _ _ = true |- _ => apply mem_nat_In in X; pose proof (length_remove_nat_lt _ _ X) as LT end.
+    set (K := 2 * length (registered s) + 4).
+    assert (length (remove_nat e (waiting s)) * K + K <= length (waiting s) * K) as M.
+    { replace (length (remove_nat e (waiting s)) * K + K) with (S (length (remove_nat e (waiting s))) * K) by (cbn; lia).
+      apply Nat.mul_le_mono_r. lia. }
+    unfold K in *. lia.
+  - (* SendSpawn *) rewrite app_length. cbn [length]. lia.
+  - (* SendUnlock *) cbn [length]. lia.
+  - (* Deliver on a closed channel *) destruct (OK c) as [EV _]. congruence.
+  - (* Deliver *)
+    match goal with X : mem_pair _ _ = true |- _ => apply mem_pair_In in X; pose proof (length_remove_one _ _ X) as LR end.
+    assert (c < next_id s) as L by (apply Known; congruence).
+    match goal with |- context [upd (cl s) c ?v] =>
+      pose proof (count_pc_upd PLoop (cl s) (next_id s) c v L) as C1;
+      pose proof (count_pc_upd PExiting (cl s) (next_id s) c v L) as C2 end.
+    match goal with X : cpc (cl s c) = PLoop |- _ => rewrite X in C1, C2 end. cbn in C1, C2. lia.
+  - (* Drop *)
+    match goal with X : _ && _ = true |- _ => apply andb_true_iff in X; destruct X as [M _] end.
+    apply mem_pair_In in M. pose proof (length_remove_one _ _ M) as LR. lia.
+  - (* SeeDone *) assert (c < next_id s) as L by (apply Known; congruence).
+    pose proof (count_pc_upd PLoop (cl s) (next_id s) c (set_pc (cl s c) PExiting) L) as C1.
+    pose proof (count_pc_upd PExiting (cl s) (next_id s) c (set_pc (cl s c) PExiting) L) as C2.
+    match goal with X : cpc (cl s c) = PLoop |- _ => rewrite X in C1, C2 end. cbn in C1, C2. lia.
+  - (* Exit, second close *) destruct (OK c) as [_ DN].
+    assert (cpc (cl s c) = PGone) as G by (apply DN; assumption). congruence.
+  - (* Exit *) assert (c < next_id s) as L by (apply Known; congruence).
+    match goal with |- context [upd (cl s) c ?v] =>
+      pose proof (count_pc_upd PLoop (cl s) (next_id s) c v L) as C1;
+      pose proof (count_pc_upd PExiting (cl s) (next_id s) c v L) as C2 end.
+    match goal with X : cpc (cl s c) = PExiting |- _ => rewrite X in C1, C2 end. cbn in C1, C2.
+    pose proof (length_remove_nat_le c (registered s)) as LR.
+    assert (length (waiting s) * (2 * length (remove_nat c (registered s)) + 4) <= length (waiting s) * (2 * length (registered s) + 4)) as M.
+    { apply Nat.mul_le_mono_l. lia. }
+    lia.
+Qed.
+
+(* a run made of handler steps only is at most rest_bound long: the handler cannot keep itself busy *)
+Theorem handler_runs_terminate tr : forall s s', reachable false s -> exec false s tr = Some s' ->
+  (forall a, In a tr -> handler_step a = true) -> length tr + rest_bound s' <= rest_bound s.
+Proof.
+  induction tr as [|a r IH]; intros s s' R H A; cbn in H.
+  - inversion H; subst. cbn. lia.
+  - destruct (step false s a) as [s1|] eqn:S1; [|discriminate].
+    pose proof (handler_step_decreases s a s1 R (A a (or_introl eq_refl)) S1) as D.
+    pose proof (IH s1 s' (reachable_step false s a s1 R S1) H (fun x Hx => A x (or_intror Hx))) as Q.
+    cbn [length]. lia.
+Qed.
+
+(* as long as the handler is not at rest one of its goroutines can move *)
+Lemma unstable_can_move s : reachable false s -> stableb s = false ->
+  exists a s', handler_step a = true /\ step false s a = Some s'.
+Proof.
+  intros R U. pose proof (Inv_reachable s R) as ((P & OK) & _).
+  destruct (broadcaster_never_blocks false s R P) as (_ & BL & BH & _).
+  unfold stableb in U.
+  destruct (holder s) as [[e todo]|] eqn:Hh.
+  { assert (exists a, holder_action s = Some a /\ handler_step a = true) as [a [Ha Hs]].
+    { unfold holder_action. rewrite Hh. destruct todo; eexists; split; reflexivity. }
+    destruct (BH a Ha) as [s' [X _]]. exists a, s'. auto. }
+  destruct (waiting s) as [|e w] eqn:W.
+  2:{ destruct (BL e eq_refl (or_introl eq_refl)) as [s' [X _]]. exists (SendLock e), s'. auto. }
+  destruct (held_up s) as [|[c e] r] eqn:HU.
+  2:{ assert (In (c, e) (held_up s)) as I by (rewrite HU; left; reflexivity).
+      unfold held_up in I. apply filter_In in I. destruct I as [I NS]. cbn in NS.
+      apply negb_true_iff in NS. unfold stalledb in NS.
+      pose proof (delivery_progress s c e R I) as D.
+      destruct (cpc (cl s c)) eqn:E; [destruct D | | discriminate NS | |].
+      - destruct D as [s' [X _]]. exists (Deliver c e), s'. auto.
+      - destruct (D Hh) as [s' [X _]]. exists (Exit c), s'. auto.
+      - destruct D as [s' [X _]]. exists (Drop c e), s'. auto. }
+  apply negb_false_iff in U. apply existsb_exists in U. destruct U as [c [_ CR]].
+  unfold client_restless in CR. destruct (cpc (cl s c)) eqn:E; try discriminate CR.
+  - exists (SeeDone c). unfold step. rewrite P, E, CR. eexists. split; reflexivity.
+  - exists (Exit c). unfold step. rewrite P, Hh, E. destruct (OK c) as [_ DN].
+    destruct (done_closed (cl s c)) eqn:D.
+    + assert (cpc (cl s c) = PGone) as G by (apply DN; reflexivity). congruence.
+    + eexists. split; reflexivity.
+Qed.
+
+(* a handler step leaves every client it does not touch as it was *)
+Lemma handler_step_frame s a s' c : handler_step a = true -> step false s a = Some s' ->
+  touches a <> Some c -> cl s' c = cl s c.
+Proof.
+  intros Hh H T. destruct a; cbn in Hh; try discriminate Hh; inv_step H; cbn in *; try reflexivity.
+  all: apply upd_other; congruence.
+Qed.
+
+(* From any reachable state the handler's own goroutines bring it to rest in at most rest_bound
+   steps, no environment step needed - in particular no stalled write has to return - and the
+   clients stalled in a write are exactly as they were. *)
+Theorem handler_comes_to_rest s : reachable false s ->
+  exists tr s', exec false s tr = Some s' /\ stableb s' = true /\
+    (forall a, In a tr -> handler_step a = true) /\ length tr <= rest_bound s /\
+    (forall c, cpc (cl s c) = PBusy -> cl s' c = cl s c).
+Proof.
+  remember (rest_bound s) as n eqn:N. assert (rest_bound s <= n) as B by lia. clear N.
+  revert s B. induction n as [|n IH]; intros s B R.
+  - destruct (stableb s) eqn:St.
+    + exists [], s. split; [reflexivity|]. split; [exact St|]. split; [intros a []|]. split; [cbn; lia | auto].
+    + destruct (unstable_can_move s R St) as [a [s1 [Hh X]]].
+      pose proof (handler_step_decreases s a s1 R Hh X). lia.
+  - destruct (stableb s) eqn:St.
+    + exists [], s. split; [reflexivity|]. split; [exact St|]. split; [intros a []|]. split; [cbn; lia | auto].
+    + destruct (unstable_can_move s R St) as [a [s1 [Hh X]]].
+      pose proof (handler_step_decreases s a s1 R Hh X) as D.
+      pose proof (reachable_step false s a s1 R X) as R1.
+      destruct (IH s1 ltac:(lia) R1) as [tr [s' (E & S' & A & L & K)]].
+      exists (a :: tr), s'. split; [cbn; rewrite X; exact E|]. split; [exact S'|]. split; [|split].
+      * intros x [<-|Hx]; auto.
+      * cbn [length]. lia.
+      * intros c Bz.
+        assert (cl s1 c = cl s c) as Fr.
+        { apply (handler_step_frame s a s1 c Hh X). intros T.
+          exact (handler_steps_need_no_stalled_client s a s1 R Hh X c T Bz). }
+        rewrite <- Fr. apply K. rewrite Fr. exact Bz.
+Qed.
